@@ -19,10 +19,14 @@ Proof.
   vm_compute. discriminate.
 Qed.
 
+Fixpoint list_eqb (x y : list Z) : bool :=
+  match x, y with [], [] => true | p :: q, r :: t => (p =? r) && list_eqb q t | _, _ => false end.
+
+(* the hypotheses of a partial theorem would be satisfiable: the round trip does hold on
+   representatives of every other escape class *)
 Example quote_load_examples :
   let ip := is_print_tab [233] in
-  forallb (fun s => match lua_string_literal (quote ip s) with Some s' => forallb2 s s' | None => false end)
+  forallb (fun s => match lua_string_literal (quote ip s) with Some s' => list_eqb s s' | None => false end)
     [[]; [0]; [7; 8; 9; 10; 11; 12; 13]; [34; 92; 39]; [97; 0; 49]; [127; 128; 255]; [195; 169]; [195]; [92; 120; 52; 49];
-     [27; 48; 48]; [237; 160; 128]; [192; 128]; [244; 144; 128; 128]] = true
-  where "'forallb2' a b" := ((fix eq (x y : list Z) := match x, y with [], [] => true | p :: q, r :: t => (p =? r) && eq q t | _, _ => false end) a b).
+     [27; 48; 48]; [237; 160; 128]; [192; 128]; [244; 144; 128; 128]] = true.
 Proof. vm_compute. reflexivity. Qed.
